@@ -13,15 +13,17 @@ The driver
     one-point interval.
 -/
 import Kap.Basic
+import Kap.Gen.C07
 import Kap.Model.C07
 import Kap.Spec.C07
 open Kap Kap.C07
 
 namespace Kap.C07.Drv
 
-/-- `defaultEdgeBufferSize` (edge.go) and `alert.DefaultEventBufferSize` (alert/topics.go). -/
-def edgeCap : Nat := 1000
-def handlerQueue : Nat := 5000
+/-- `defaultEdgeBufferSize` (edge.go) and `alert.DefaultEventBufferSize` (alert/topics.go), regenerated from the
+Go source by extract/c07consts on every run. -/
+def edgeCap : Nat := Kap.C07.Gen.edgeCap
+def handlerQueue : Nat := Kap.C07.Gen.handlerQueue
 
 structure NodeTok where
   kind : Kind
